@@ -205,4 +205,29 @@ example : (firstLoad codeReadAt (fun b => exLoad b true true) resumeWitness
       (processRun codeReadAt (fun b => exLoad b true true) resumeWitness [.load (exLoad [2] true true) none]
         CDisk.empty)).cfg = [2] := by decide
 
+/-! ### a push that differs only in ids, accepted without a reload -/
+
+/-- `changeConfig` with a shortcut in front of `unsyncedDecodeAndRun`: a non-forced push whose
+    document equals the running one after `strip` adopts the new bytes as the running document and
+    returns success — no reload, hence no autosave (seeded mutant C14-id-only-push-skips-autosave) -/
+def loadStepIdShortcut (strip : Bytes → Bytes) (l : Load) (ft : Option FFault) (a : AState) : LoadOut :=
+  if !l.force && (a.cur.map strip == some (strip l.cfg)) then ⟨.ok, { a with cur := some l.cfg }, [], [a.fs]⟩
+  else loadStep codeStyle l ft a
+
+/-- documents are a body byte followed by an id byte; `strip` drops the id -/
+def stripLast (b : Bytes) : Bytes := b.dropLast
+
+/-- **autosave_exact_document fails with the shortcut**: `[7, 1]` (body 7, id 1) is running and
+    saved; `[7, 2]` (the id renamed) is pushed: success is returned, the running document is
+    `[7, 2]`, the autosave file still holds `[7, 1]` — which is what `--resume` would bring back. -/
+theorem autosave_id_shortcut_fails :
+    (loadStepIdShortcut stripLast (exLoad [7, 2] true true) none ⟨some [7, 1], ⟨some [7, 1], none⟩⟩).res = .ok ∧
+    (loadStepIdShortcut stripLast (exLoad [7, 2] true true) none ⟨some [7, 1], ⟨some [7, 1], none⟩⟩).st.cur = some [7, 2] ∧
+    resumeConfig (loadStepIdShortcut stripLast (exLoad [7, 2] true true) none ⟨some [7, 1], ⟨some [7, 1], none⟩⟩).st
+      = some [7, 1] := by decide
+
+/-- the code as it is saves `[7, 2]` -/
+example : resumeConfig (loadStep codeStyle (exLoad [7, 2] true true) none ⟨some [7, 1], ⟨some [7, 1], none⟩⟩).st
+    = some [7, 2] := by decide
+
 end CaddyModel.C14
